@@ -44,7 +44,7 @@ def slice (b : Bytes) (off len : Nat) : Res Bytes :=
 
 /-- `memcpy`/`memmove`/`recv` of `src` to `&dst[off]` -/
 def blit (dst : Bytes) (off : Nat) (src : Bytes) : Res Bytes :=
-  if off + src.length ≤ dst.length then .ok (dst.take off ++ src ++ dst.drop (off + src.length)) else .oob
+  if off + src.length ≤ dst.length then .ok (dst.take off ++ (src ++ dst.drop (off + src.length))) else .oob
 
 /-- `a - b` on `size_t` where the C relies on `b ≤ a` -/
 def sub (a b : Nat) : Res Nat := if b ≤ a then .ok (a - b) else .oob
